@@ -7,6 +7,7 @@ import (
 	"time"
 
 	"github.com/karagenc/socket.io-go/internal/sync"
+	"github.com/karagenc/socket.io-go/internal/verifhook"
 
 	_webtransport "github.com/quic-go/webtransport-go"
 	_websocket "nhooyr.io/websocket"
@@ -270,6 +271,7 @@ func (s *clientSocket) finishUpgradeTo(t ClientTransport, c *transport.Callbacks
 	}
 
 	c.Set(s.onPacket, s.onTransportClose)
+	verifhook.Point("eio.clientSocket.finishUpgradeTo:before-swap")
 
 	s.transportMu.Lock()
 	defer s.transportMu.Unlock()
